@@ -207,8 +207,9 @@ theorem C18_F_glob_dir_witness :
     run (classify .new .cleanGlobBad ["a.shootnew.go"] ["a.shootnew.user.go"]) = (.fatal, [.write "a.shootnew.go"]) ∧
     specOK (run (classify .new .cleanGlobBad ["a.shootnew.go"] ["a.shootnew.user.go"])) = false := by decide
 
-/-- every literal index into a slice of a go/ast node (`.Names[0]`, `.List[0]`, ... ; regenerated on every run) stands in a function
-    that tests `len()` of a slice of that field - the last column lists those tests. Two of these sites were runtime panics on damaged
+/-- every literal index into a slice-valued field (`.Names[0]`, `.List[0]`, `.GoFiles[0]`, ... ; regenerated on every run) stands in a
+    function that tests `len()` of a slice of that field - the last column lists those tests (`g.pkg.GoFiles[0]` in Generate: a package
+    directory without any buildable file has none). Two of these sites were runtime panics on damaged
     input before they got their guard (`p.Names[0]` in parseCtors on a constructor with unnamed parameters, /repo 0dbe2aa;
     `param.Names[0]` / `recv.Names[0]` in parseManual, /repo a51cc44). The one site without a test of its own, `method.Names[0]` in
     restclient.methodSignature, is reached only from cookClient's branch for fields with `len(field.Names) != 0`.
@@ -231,6 +232,7 @@ theorem C18_ast_index_sites_guarded :
         ("restclient", "cookClient", "field.Names", "0", ["field.Names", "r.Names"]),
         ("restclient", "cookClient", "ftype.Results.List", "0", ["ftype.Results.List"]),
         ("restclient", "methodSignature", "method.Names", "0", []),
+        ("shoot", "Generate", "g.pkg.GoFiles", "0", ["g.pkg.GoFiles"]),
         ("shoot", "MergeSources", "files[0].Comments", "0", ["files[0].Comments"]) ] := by decide
 
 /-- before the first write, exits come in exactly two flavours: os.Exit (only in main and ParseCommonFlags:
